@@ -24,7 +24,8 @@ GMTypes == {"U", "U|SSGm"}
 Bodies == {"inc_parents", "trav_rel_m", "trav_perm_view", "this_perm_q", "trav_rel_self"}
 Mutations == {"none", "inc_undeclared_rel", "trav_undeclared_rel", "trav_undeclared_crel", "perm_undeclared",
               "type_undeclared_ns", "ss_undeclared_rel", "ss_undeclared_ns"}
-Programs == [pt : PTypes, gm : GMTypes, gview : BOOLEAN, uview : BOOLEAN, dview : BOOLEAN, body : Bodies, mut : Mutations]
+\* dup: the unmutated body appears first as another permission of D (the same relation is traversed twice in one document)
+Programs == [pt : PTypes, gm : GMTypes, gview : BOOLEAN, uview : BOOLEAN, dview : BOOLEAN, body : Bodies, mut : Mutations, dup : BOOLEAN]
 
 \* which mutations make sense for which program
 Applicable(P) ==
@@ -42,7 +43,7 @@ TypesOf(t) == CASE t = "G" -> <<<<"G", "">>>> [] t = "SSGm" -> <<<<"G", "m">>>> 
 \* the declarations of a program: namespace -> set of relation/permission names
 Decls(P) == [U |-> {"self"} \cup (IF P.uview THEN {"view"} ELSE {}),
              G |-> {"m"} \cup (IF P.gview THEN {"view"} ELSE {}),
-             D |-> {"parents", "q", "p"} \cup (IF P.dview THEN {"view"} ELSE {})]
+             D |-> {"parents", "q", "p"} \cup (IF P.dview THEN {"view"} ELSE {}) \cup (IF P.dup THEN {"p0"} ELSE {})]
 RelTypes(P) == [U |-> [self |-> TypesOf("U")], G |-> [m |-> TypesOf(P.gm)], D |-> [parents |-> TypesOf(P.pt)]]
 
 \* the references of the body of D.p: the traversed relation and the computed relation
@@ -77,13 +78,14 @@ Offending(P) ==
   CASE P.mut \in {"inc_undeclared_rel", "trav_undeclared_rel", "trav_undeclared_crel", "perm_undeclared", "ss_undeclared_rel"} -> "zz"
     [] P.mut \in {"type_undeclared_ns", "ss_undeclared_ns"} -> "Nowhere"
     [] OTHER -> ""
-BodyTxt(P) ==
-  LET r == IF P.mut \in {"inc_undeclared_rel", "trav_undeclared_rel"} THEN "zz" ELSE "parents"
-      c == IF P.mut = "trav_undeclared_crel" THEN "zz" ELSE Crel(P)
+BodyTxtM(P, mutated) ==
+  LET r == IF mutated /\ P.mut \in {"inc_undeclared_rel", "trav_undeclared_rel"} THEN "zz" ELSE "parents"
+      c == IF mutated /\ P.mut = "trav_undeclared_crel" THEN "zz" ELSE Crel(P)
   IN CASE P.body = "inc_parents" -> "this.related." \o r \o ".includes(ctx.subject)"
        [] P.body \in {"trav_rel_m", "trav_rel_self"} -> "this.related." \o r \o ".traverse((x) => x.related." \o c \o ".includes(ctx.subject))"
        [] P.body = "trav_perm_view" -> "this.related." \o r \o ".traverse((x) => x.permits." \o c \o "(ctx))"
-       [] OTHER -> "this.permits." \o (IF P.mut = "perm_undeclared" THEN "zz" ELSE "q") \o "(ctx)"
+       [] OTHER -> "this.permits." \o (IF mutated /\ P.mut = "perm_undeclared" THEN "zz" ELSE "q") \o "(ctx)"
+BodyTxt(P) == BodyTxtM(P, TRUE)
 ViewTxt(rel) == "view: (ctx: Context): boolean => this.related." \o rel \o ".includes(ctx.subject)"
 Source(P) ==
   "class U implements Namespace {\n  related: { self: U[] }\n"
@@ -93,6 +95,7 @@ Source(P) ==
   \o "class D implements Namespace {\n  related: { parents: " \o ParentsTxt(P) \o " }\n"
   \o "  permits = {\n    q: (ctx: Context): boolean => this.related.parents.includes(ctx.subject),\n"
   \o (IF P.dview THEN "    " \o ViewTxt("parents") \o ",\n" ELSE "")
+  \o (IF P.dup THEN "    p0: (ctx: Context): boolean => " \o BodyTxtM(P, FALSE) \o ",\n" ELSE "")
   \o "    p: (ctx: Context): boolean => " \o BodyTxt(P) \o "\n  }\n}\n"
 
 \* stored relationships that conform to the declared types (one per declared type), and the checks to run
